@@ -96,11 +96,11 @@ func (m *Moq) Run(cwd string, args []string, o Opts) Result {
 		o.Wall = 120 * time.Second
 	}
 	// ulimit -t is inherited by moq and its children; each process has its own CPU clock.
+	// the CPU limit applies to moq and its children, not to a tracer in front of it
 	script := fmt.Sprintf("ulimit -t %d; exec \"$@\"", o.CPULimit)
-	full := append([]string{"-c", script, "sh"}, o.Prefix...)
-	full = append(full, m.Bin)
-	full = append(full, args...)
-	cmd := exec.Command("/bin/sh", full...)
+	inner := append([]string{"/bin/sh", "-c", script, "sh", m.Bin}, args...)
+	full := append(append([]string{}, o.Prefix...), inner...)
+	cmd := exec.Command(full[0], full[1:]...)
 	cmd.Dir = cwd
 	cmd.Env = ChildEnv(o.Env...)
 	cmd.SysProcAttr = &syscall.SysProcAttr{Setpgid: true}
